@@ -733,8 +733,17 @@ AccReqs(sh, m, a) ==
      ELSE {Req("do", m, nm, p) : p \in (IF acc.arg = NoDt THEN NoArgCat ELSE Cat(acc.arg) \cup {JNull})}
           \cup {Req("change", m, nm, Num(1)), Req("read", m, nm, Null)}
           \cup (IF acc.wire # a /\ acc.wire # "" THEN {Req("do", m, a, Null)} ELSE {})
+\* the unexported module "h" gamma adds to every node is of the same class: every accessible of it, commands
+\* included (with no and with a valid argument), must be as unreachable as the module itself
+HiddenReqs(acc, a) ==
+  LET nm == IF acc.wire = "" THEN a ELSE acc.wire IN
+  IF acc.kind = "cmd"
+  THEN {Req("do", "h", nm, Null)}
+       \cup (IF acc.arg.t \in {"double", "int", "scaled", "enum", "string", "bool", "blob", "struct", "array"}
+             THEN {Req("do", "h", nm, InitOf(acc.arg))} ELSE {})
+  ELSE {Req("read", "h", nm, Null), Req("change", "h", nm, acc.init), Req("activate", "h", nm, Null), Req("do", "h", nm, Null)}
 ReqsOf(sh) ==
-  UNION {UNION {AccReqs(sh, m, a) : a \in DOMAIN sh[m]} : m \in DOMAIN sh}
+  UNION {UNION {AccReqs(sh, m, a) \cup HiddenReqs(sh[m][a], a) : a \in DOMAIN sh[m]} : m \in DOMAIN sh}
   \cup {Req(act, mod, nm, IF act = "change" THEN Num(3) ELSE Null) :
           act \in {"change", "read", "do", "activate"}, mod \in {"zz", "h"}, nm \in {"_pa", "target"}}
   \cup {Req("activate", mod, "", Null) : mod \in DOMAIN sh \cup {"zz", "h"}}
